@@ -187,6 +187,9 @@ func nativeReplay(hroot, pkg, pkgName string, harnessNames []string, items []rep
 			res[cur].Covers = append(res[cur].Covers, strings.TrimPrefix(line, "ZZ-COVER: "))
 		case strings.HasPrefix(line, "ZZ-RESULT: ") && cur >= 0 && cur < len(res):
 			res[cur].Result = strings.TrimPrefix(line, "ZZ-RESULT: ")
+		case (strings.HasPrefix(line, "fatal error: ") || strings.HasPrefix(line, "runtime: goroutine stack exceeds")) && cur >= 0 && cur < len(res) && res[cur].Result == "":
+			// the process died inside this vector (stack overflow, concurrent map access, ...)
+			res[cur].Result = "panic:" + line
 		}
 	}
 	return res, out, nil
@@ -645,7 +648,7 @@ func cmdCheck(args []string) int {
 				if v.Kind == "panic" && strings.HasPrefix(o.Result, "panic:") {
 					confirmed = true
 				}
-				if v.Kind == "hang" && o.Result == "timeout" {
+				if v.Kind == "hang" && (o.Result == "timeout" || strings.Contains(o.Result, "stack overflow") || strings.Contains(o.Result, "stack exceeds")) {
 					confirmed = true
 				}
 				if v.Kind == "monitor" && (strings.HasPrefix(o.Result, "assert-fail:") || strings.HasPrefix(o.Result, "panic:")) {
